@@ -25,7 +25,7 @@ var Dq = []string{
 	`{"a":{"b":{"c":[{"d":1}]}}}`,
 	`[[1,2],[3]]`,
 	`{"b":2,"a":1,"c":{"z":1,"y":2}}`,
-	`{"~1":1,"/":2,"a~1b":{"~0":[1]},"a/b":{"~":[2]},"~01":3}`,
+	`{"~1":1,"/":2,"a~1b":{"~0":[1]},"a/b":{"~":[2]},"~01":3,"~~":{"~~/~":4}}`,
 	`{"":{"":1,"b":[{"":2}]},"a":{"b":3}}`,
 }
 
@@ -270,7 +270,7 @@ func optString(o r69.Options) string {
 // parents: all token sequences of length 1..maxLen over names (incl. ones that
 // need ~0/~1), small indices, and "-" as last token.
 func SigmaEnsure(maxLen int, vals []*rj.Value) []r69.Op {
-	toks := []string{"a", "b", "a/b", "m~n", "0", "1", "2"}
+	toks := []string{"a", "b", "a/b", "m~~n", "0", "1", "2"}
 	var ops []r69.Op
 	var rec func(prefix []string)
 	rec = func(prefix []string) {
